@@ -12,6 +12,7 @@ Binding:
 """
 import json
 import os
+import time
 import vlib
 
 PID = "C03"
@@ -44,7 +45,7 @@ TX = {
 # G-sim pass of the receiver: random behaviours (several injected records in a row, phase changes included);
 # in simulation TLC prints every out-edge of every visited state with the real, unmerged history.
 # The flip alphabet is cut to the 8 bits of the content-type byte so that it does not drown the other classes.
-SIM = {"quick": dict(num=40, depth=6), "thorough": dict(num=400, depth=8)}
+SIM = {"quick": dict(num=30, depth=6, reps="{1, 5}"), "thorough": dict(num=300, depth=8, reps="{1, 4, 5, 101}")}
 SIM_FB = dict(FbApp=8, FbAlert=8, FbHs=8, FbCcs=8)
 REPS = {"quick": dict(normal=3, burst=400, early=40), "thorough": dict(normal=40, burst=5000, early=600)}
 
@@ -108,7 +109,7 @@ def rx_edges(ck, tier, fb=None, sim=None):
     Returns the path of the de-duplicated edges."""
     name = f"rx_{tier}" + ("_sim" if sim else "")
     cfg = gen_cfg(name)
-    write_cfg(cfg, "rx", fb=fb or RX[tier], emit="EmitEdge")
+    write_cfg(cfg, "rx", fb=fb or RX[tier], emit="EmitEdge", **({"reps": sim["reps"]} if sim else {}))
     raw = os.path.join(ck.dir, f"edges_raw_{name}.ndjson")
     res = vlib.tlc("MC_DtlsRecord", os.path.basename(cfg), tags=("EDGE",), sinks={"EDGE": raw},
                    timeout=1500, heap="6g", tag=f"C03{name}",
@@ -139,7 +140,9 @@ def sig_rx(case, div):
 
 def replay_edges(ck, edges_path, label):
     out = os.path.join(ck.dir, f"inject_{label}.ndjson")
+    t0 = time.time()
     p = vlib.run_bin(BIN, ["inject", edges_path, out], timeout=2400)
+    ck.cov.setdefault("timing_s", {})[f"inject/{label}"] = round(time.time() - t0, 1)
     if p.returncode != 0:
         raise vlib.ToolError(f"dtlsrec inject failed rc={p.returncode}: {p.stderr[-2000:]}")
     rows = vlib.read_ndjson(out)
@@ -220,7 +223,9 @@ def run_egress(ck, rows, label):
     out = os.path.join(ck.dir, f"egress_{label}.ndjson")
     trace = os.path.join(ck.dir, f"trace_{label}.ndjson")
     vlib.write_ndjson(sp, rows)
+    t0 = time.time()
     p = vlib.run_bin(BIN, ["egress", sp, out, trace], timeout=2400)
+    ck.cov.setdefault("timing_s", {})[f"egress/{label}"] = round(time.time() - t0, 1)
     if p.returncode != 0:
         raise vlib.ToolError(f"dtlsrec egress failed rc={p.returncode}: {p.stderr[-2000:]}")
     res = vlib.read_ndjson(out)
